@@ -25,7 +25,7 @@ ASSUMPTIONS = [
 BUDGET = {"quick": (4, 400), "thorough": (16, 3000)}
 KNOWN_KINDS = {}
 STRATA = ["transfer", "distribute", "direct", "mixed"]
-REQUIRED_CLASSES = ["op:transfer", "op:distribute", "op:aspirate", "op:dispense", "both-raised", "trough-position-differs", "base-refused", "split"]
+REQUIRED_CLASSES = ["op:transfer", "op:distribute", "op:aspirate", "op:dispense", "both-raised", "trough-position-differs", "base-refused", "split", "chained-transfer"]
 
 
 @st.composite
@@ -43,7 +43,7 @@ def _case(draw, focus):
         labs.append(draw(lab_spec(names[i], kind=kind, max_rows=6, max_cols=6 if kind == "plate" else 4, regime=draw(st.sampled_from(["roomy", "tight"])), grid=True, pos=(10 + i, 1 + i), filled=True if i == 0 else None)))
     vs = st.one_of(vs_ok(0.01), vs_ok(0.01), vs_mixed(0.01))
     # "route": force trough -> plate (the case in which the automatic partitioning differs from "source") or plate -> trough
-    t = st.tuples(op_transfer(vs, max_n=5), st.sampled_from([None, "t2p", "t2p", "p2t"]), st.sampled_from(["auto", "auto", None])).map(
+    t = st.tuples(op_transfer(vs, max_n=5), st.sampled_from([None, "t2p", "t2p", "p2t", "chain", "chain"]), st.sampled_from(["auto", "auto", None])).map(
         lambda x: dict(x[0], route=x[1], pb=x[2] or x[0]["pb"])
     )
     d = op_distribute(vs, max_n=5)
@@ -119,7 +119,19 @@ def check_case(case) -> Obs:
         if kind == "transfer":
             op["cap"] = 6 * M
             plates = [i for i, s_ in enumerate(specs) if s_["kind"] == "plate"]
-            if op.get("route") and troughs and plates:
+            if op.get("route") == "chain" and plates:
+                # serial dilution down one column of one plate within a single call (a well is destination first, source later)
+                i_ = plates[op["src"] % len(plates)]
+                R_ = specs[i_]["rows"]
+                if R_ >= 2:
+                    c_ = op["dst"] % specs[i_]["cols"]
+                    k_ = min(R_ - 1, 4)
+                    op["src"] = op["dst"] = i_
+                    op["sw"] = {"t": "list", "w": [[r_, c_] for r_ in range(k_)]}
+                    op["dw"] = {"t": "list", "w": [[r_ + 1, c_] for r_ in range(k_)]}
+                    op["vols"] = {"t": "scalar", "v": {"f": 0.4}}
+                    obs.cls("chained-transfer")
+            elif op.get("route") and troughs and plates:
                 a, b = troughs[0], plates[0]
                 op["src"], op["dst"] = (a, b) if op["route"] == "t2p" else (b, a)
         conc = resolve(flu, op)  # Fluent: the stricter notion of "distinct destination positions"
